@@ -145,6 +145,45 @@ def table(ts, item, cfgty, target, problems, where):
     return []
 
 
+def ui_table(ts, src_ty, dst_ty, problems, where):
+    """rows (ui field, source field) of `impl From<src_ty> for dst_ty { fn from(value) -> Self { Self { f: T::from(value.g), .. } } }`;
+    also accepts `value.g.into()` and plain `value.g`"""
+    for i in range(len(ts) - 6):
+        if ts[i:i + 4] == ['impl', 'From', '<', src_ty] and ts[i + 4:i + 7] == ['>', 'for', dst_ty]:
+            k = i + 7
+            e = balanced(ts, k, '{', '}')
+            body = ts[k + 1:e]
+            # the parameter name
+            pn = None
+            for s in range(len(body) - 4):
+                if body[s] == 'fn' and body[s + 1] == 'from' and body[s + 2] == '(':
+                    pn = body[s + 3]
+                    break
+            for s in range(len(body) - 1):
+                if body[s] == 'Self' and body[s + 1] == '{' and body[s - 1] != '->':
+                    se = balanced(body, s + 1, '{', '}')
+                    rows = []
+                    for f in split_top(body[s + 2:se]):
+                        if len(f) < 3 or f[1] != ':':
+                            problems.append(f'{where}: field without a value: {" ".join(f[:4])}')
+                            continue
+                        ex = f[2:]
+                        src = None
+                        if len(ex) == 8 and ex[1:4] == ['::', 'from', '('] and ex[4] == pn and ex[5] == '.' and ex[7] == ')':
+                            src = ex[6]
+                        elif len(ex) == 7 and ex[0] == pn and ex[1] == '.' and ex[3:] == ['.', 'into', '(', ')']:
+                            src = ex[2]
+                        elif len(ex) == 3 and ex[0] == pn and ex[1] == '.':
+                            src = ex[2]
+                        if src is None:
+                            problems.append(f'{where}: {f[0]}: not a conversion of one field of the argument')
+                            continue
+                        rows.append((f[0], src))
+                    return rows
+    problems.append(f'{where}: impl From<{src_ty}> for {dst_ty} not found')
+    return []
+
+
 def main():
     repo, out = sys.argv[1], sys.argv[2]
     problems = []
@@ -165,6 +204,11 @@ def main():
             if not v:
                 problems.append(f'{where}: {what} not found')
         data[key] = dict(rows=rows, variants=[snake(v) for v in (variants or [])], file_fields=filef or [], result_fields=resf or [])
+    fbase = os.path.join(repo, 'crates/trippy-tui/src/frontend')
+    ui = {
+        'theme': ui_table(toks(open(os.path.join(fbase, 'theme.rs')).read()), 'TuiTheme', 'Theme', problems, 'frontend/theme.rs'),
+        'binding': ui_table(toks(open(os.path.join(fbase, 'binding.rs')).read()), 'TuiBindings', 'Bindings', problems, 'frontend/binding.rs'),
+    }
     q = lambda s: '"' + s + '"'
     text = ['-- GENERATED by tools/rs2lean/itemtables.py from crates/trippy-tui/src/config/{theme,binding,file}.rs — do not edit',
             'namespace TV.Gen.ItemTables', '']
@@ -176,13 +220,16 @@ def main():
         text += [']', f'def {key}Items : List String := [' + ', '.join(q(x) for x in d['variants']) + ']',
                  f'def {key}FileFields : List String := [' + ', '.join(q(x) for x in d['file_fields']) + ']',
                  f'def {key}ResultFields : List String := [' + ', '.join(q(x) for x in d['result_fields']) + ']', '']
+    for key in ('theme', 'binding'):
+        text += [f'/-- what the user interface is handed: (its field, the field of the configuration it is converted from) -/',
+                 f'def {key}UiRows : List (String × String) := ['] + [f'  ({q(a)}, {q(b)}),' for a, b in ui[key]] + [']', '']
     text += ['end TV.Gen.ItemTables', '']
     os.makedirs(out, exist_ok=True)
     p = os.path.join(out, 'ItemTables.lean')
     body = '\n'.join(text)
     if not os.path.exists(p) or open(p).read() != body:
         open(p, 'w').write(body)
-    json.dump(dict(data=data, problems=problems), open(os.path.join(out, 'ItemTables.report.json'), 'w'), indent=1)
+    json.dump(dict(data=data, ui=ui, problems=problems), open(os.path.join(out, 'ItemTables.report.json'), 'w'), indent=1)
     print(f'itemtables: {len(data["theme"]["rows"])} theme rows, {len(data["binding"]["rows"])} binding rows, {len(problems)} problems')
     for x in problems:
         print('  PROBLEM', x)
